@@ -35,6 +35,13 @@ func keys(et int32, n int, seed int64) [][]byte {
 		r.Read(s)
 		out = append(out, rcrypto.RandomToKey(et, s))
 	}
+	if et == rcrypto.DES3 && n >= 2 {
+		// "any key": the last des3 key is 24 raw random octets, i.e. without the odd parity random-to-key would give
+		// (DES ignores the parity bits, so every RFC function is defined on it)
+		raw := make([]byte, 24)
+		r.Read(raw)
+		out[n-1] = raw
+	}
 	return out
 }
 
